@@ -2,7 +2,7 @@
    (op, ints, byte strings, impl-output tokens); the answer is a token list.
    Ops < 100 run the model; ops >= 100 are property oracles applied to what the
    implementation returned for the same case (out). *)
-From Verif Require Import Base Consts Packet PacketSpec OpenSpec.
+From Verif Require Import Base Consts Packet PacketSpec OpenSpec Errors Update UpdateSpec UpdateOracles.
 
 Definition nthN (l : list N) (i : nat) : N := nth i l 0.
 Definition nthB (l : list bytes) (i : nat) : bytes := nth i l [].
@@ -29,6 +29,59 @@ Definition tok_msg (m : msg) : list N :=
   | MNotif n => 3 :: tok_notif n
   | MKeepalive => [4]
   end.
+
+(* ---- update.go tokens ---- *)
+Definition tok_prefix (p : prefix) : list N := p_bits p :: tok_bytes (p_addr p).
+Definition tok_apprefix (a : apprefix) : list N := app_id a :: tok_prefix (app_prefix a).
+Definition tok_list {A} (f : A -> list N) (l : list A) : list N := N.of_nat (length l) :: flat_map f l.
+
+Definition tok_attrval (v : attrval) : list N :=
+  match v with
+  | VOrigin o => [1; o]
+  | VASPath s q => 2 :: tok_list (fun x => [x]) s ++ tok_list (fun x => [x]) q
+  | VAddr a => 3 :: tok_bytes a
+  | VU32 x => [4; x]
+  | VAtomic => [5]
+  | VAggregator a ip => 6 :: a :: tok_bytes ip
+  | VU32s l => 7 :: tok_list (fun x => [x]) l
+  | VAddrs l => 8 :: tok_list tok_bytes l
+  | VLarge l => 9 :: tok_list (fun t => [fst (fst t); snd (fst t); snd t]) l
+  end.
+
+Definition tok_mpcall (c : option mpcall) : list N :=
+  match c with
+  | None => [0]
+  | Some (MPReach afi safi nh nlri) => 1 :: afi :: safi :: tok_bytes nh ++ tok_bytes nlri
+  | Some (MPUnreach afi safi wd) => 2 :: afi :: safi :: tok_bytes wd
+  end.
+
+Definition tok_call (c : call) : list N :=
+  match c with
+  | CWr b => 1 :: tok_bytes b
+  | CPa code flags b => 2 :: code :: flags :: tok_bytes b
+  | CNl b => 3 :: tok_bytes b
+  end.
+
+(* an optional error tree given as tokens: [] = nil *)
+Definition oerr_of (l : list N) : option err :=
+  match l with
+  | [] => None
+  | _ => match untok_err (S (length l)) l with Some (e, _) => Some e | None => Some EOther end
+  end.
+
+(* script: [n; len1; tree1...; len2; tree2...]; entries with len 0 are nil *)
+Fixpoint script_list (fuel : nat) (l : list N) : list (option err) :=
+  match fuel with
+  | O => []
+  | S f =>
+      match l with
+      | len :: r => oerr_of (take len r) :: script_list f (drop len r)
+      | [] => []
+      end
+  end.
+Definition script_of (l : list N) : script :=
+  let sl := script_list (S (length l)) l in
+  fun k => nth k sl None.
 
 Definition run_model (op : N) (ints : list N) (bs : list bytes) : list N :=
   match op with
@@ -74,6 +127,62 @@ Definition run_model (op : N) (ints : list N) (bs : list bytes) : list N :=
   | 9 => tok_cap (addpath_cap (aptuples_of ints))
   | 10 => tok_cap (mp_cap (nthN ints 0) (nthN ints 1))
   | 11 => tok_bytes (prepend_header (nthB bs 0) (nthN ints 0))
+  | 20 => (* decodePrefixes / decodeAddPathPrefixes: ints [ipv6; addpath] *)
+      let ipv6 := negb (nthN ints 0 =? 0) in
+      if nthN ints 1 =? 0 then
+        match decode_prefixes (nthB bs 0) ipv6 with
+        | Ok l => 0 :: tok_list tok_prefix l
+        | Err _ => [1]
+        | _ => [2]
+        end
+      else
+        match decode_ap_prefixes (nthB bs 0) ipv6 with
+        | Ok l => 0 :: tok_list tok_apprefix l
+        | Err _ => [1]
+        | _ => [2]
+        end
+  | 21 => (* exported wrappers: 0 NLRI, 1 NLRI add-path, 2 withdrawn, 3 withdrawn add-path, 4 MP IPv6, 5 MP IPv6 add-path *)
+      let k := nthN ints 0 in
+      let b := nthB bs 0 in
+      let n := if k <? 2 then nlri_err else plain_upd_err in
+      let ipv6 := 4 <=? k in
+      if k mod 2 =? 0 then
+        match map_err (decode_prefixes b ipv6) n with
+        | Ok l => 0 :: tok_list tok_prefix l
+        | Err n => 1 :: tok_notif n
+        | _ => [2]
+        end
+      else
+        match map_err (decode_ap_prefixes b ipv6) n with
+        | Ok l => 0 :: tok_list tok_apprefix l
+        | Err n => 1 :: tok_notif n
+        | _ => [2]
+        end
+  | 22 => match decode_ipv6_nexthops (nthB bs 0) with
+          | Ok l => 0 :: tok_list tok_bytes l
+          | Err n => 1 :: tok_notif n
+          | _ => [2]
+          end
+  | 23 => match attr_decode (nthN ints 0) (nthN ints 1) (nthB bs 0) with
+          | Ok v => 0 :: tok_attrval v
+          | Err e => 1 :: tok_err e
+          | _ => [2]
+          end
+  | 24 => let p := nthN ints 0 in
+          [tok_bool (flag_optional p); tok_bool (flag_transitive p); tok_bool (flag_partial p); tok_bool (flag_extlen p)]
+  | 25 => match mp_reach (nthN ints 0) (nthB bs 0) (oerr_of (skipn 1 ints)) with
+          | Ok (c, e) => 0 :: tok_mpcall c ++ tok_oerr e
+          | _ => [2]
+          end
+  | 26 => match mp_unreach (nthN ints 0) (nthB bs 0) (oerr_of (skipn 1 ints)) with
+          | Ok (c, e) => 0 :: tok_mpcall c ++ tok_oerr e
+          | _ => [2]
+          end
+  | 27 => match update_decode (script_of ints) (nthB bs 0) with
+          | Ok (cs, e) => 0 :: tok_list tok_call cs ++ tok_oerr e
+          | _ => [2]
+          end
+  | 28 => tok_onotif (unfe (oerr_of ints))
   | _ => [999]
   end.
 
@@ -222,6 +331,20 @@ Definition oracle (op : N) (ints : list N) (bs : list bytes) (out : list N) : li
           end
       | _ => bad 3
       end
+  | 120 => oracle_prefixes (negb (nthN ints 0 =? 0)) (negb (nthN ints 1 =? 0)) (nthB bs 0) out None
+  | 121 => let k := nthN ints 0 in
+           oracle_prefixes (4 <=? k) (negb (k mod 2 =? 0)) (nthB bs 0) out
+                           (Some (if k <? 2 then mkNotif 3 10 [] else mkNotif 3 0 []))
+  | 122 => oracle_v6nh (nthB bs 0) out
+  | 123 => oracle_attr (nthN ints 0) (nthN ints 1) (nthB bs 0) out
+  | 124 => oracle_flags (nthN ints 0) out
+  | 125 => oracle_mp_reach (nthN ints 0) (nthB bs 0) (oerr_of (skipn 1 ints)) out
+  | 126 => oracle_mp_unreach (nthN ints 0) (nthB bs 0) (oerr_of (skipn 1 ints)) out
+  | 127 => oracle_calls (nthB bs 0)
+                        (forallb (fun o => match o with None => true | Some _ => false end)
+                                 (script_list (S (length ints)) ints)) out
+  | 128 => oracle_unfe (oerr_of ints) out
+  | 129 => oracle_errors (nthB bs 0) (script_of ints) out
   | _ => [999]
   end.
 
